@@ -5,8 +5,12 @@ a. simple backend: writer/reader agreement on every field of backend::Commit, Si
 b. lossy encoders: a field that write_commit passes through an encoder that divides it (millis -> seconds) must be
    written back into the returned Commit from the encoded value before the Ok return
 c. Store::write_commit caches exactly the (id, commit) pair the backend returned
+d. git backend, extras table (change id, predecessors live there, keyed by commit id): the id is
+   handed out only if the table has no entry for it or an equal one (otherwise the committer time is adjusted and the
+   object rewritten); the entry (id -> serialize_extras(contents)) is added and the table saved (?-checked) before every
+   Ok return; the table consulted is the one read under the lock that is passed to the save
 """
-from jjv.lib import (READ_KINDS, bodies_with, body_accesses, find_ok_nodes, impls_of, name_matches, norm, ok_exit_nodes,
+from jjv.lib import (READ_KINDS, bool_edges, bodies_with, body_accesses, find_ok_nodes, impls_of, name_matches, norm, ok_exit_nodes,
                      referent_place, show, strip, term_calls, term_fields, walk)
 from rules.serde_common import (DERIVED_TRAITS, check_pairwise, check_roundtrip, cone_bodies, relation, struct_fields)
 
@@ -34,6 +38,7 @@ def run(ctx):
     rule_git(ctx)
     rule_b(ctx)
     rule_c(ctx)
+    rule_d(ctx)
 
 
 def _impl(F, trait_item, self_pat):
@@ -261,3 +266,101 @@ def rule_c(ctx):
         news = b.calls_to("jj_lib::commit::Commit::new")
         okn = any(any(x[3] and x[3][1] == w.bb for x in term_calls(sl.call_arg(n, 2))) for n in news)
         ctx.ob("C17.c/returned-commit-is-backend-result", root, okn, "Commit::new(.., id, data) from the same result")
+
+
+def rule_d(ctx):
+    F = ctx.F
+    imp = "<jj_lib::git_backend::GitBackend as jj_lib::backend::Backend>::write_commit"
+    GB = "jj_lib::git_backend::"
+    bs = bodies_with(F, imp, GB + "serialize_extras")
+    if not ctx.anchor("C17.d", "GitBackend::write_commit body", bs, 1):
+        return
+    b = bs[0]
+    ctx.fn_seen(b.id)
+    sl = F.slicer(b.id)
+    ser = b.calls_to(GB + "serialize_extras")
+    getv = b.calls_to("re:stacked_table::TableSegment::get_value$")
+    locked = b.calls_to(GB + "GitBackend::read_extra_metadata_table_locked")
+    wobj = [c for c in b.calls_to("re:gix::Repository>::write_object$")]
+    mk = b.calls_to("jj_lib::backend::CommitId::from_bytes")
+    adds = b.calls_to("re:stacked_table::MutableTable::add_entry$")
+    save = b.calls_to(GB + "GitBackend::save_extra_metadata_table")
+    if not ctx.anchor("C17.d", "serialize_extras/get_value/locked read/CommitId::from_bytes/add_entry/save in write_commit",
+                      min(len(ser), len(getv), len(locked), len(mk), len(adds), len(save), len(wobj)), 1):
+        return
+    # d1: collision test: ne/eq between get_value(..git id..) and serialize_extras(..)
+    cmp_true_differs = set()
+    for c in b.calls:
+        if c.cleanup or c.decl not in ("std::cmp::PartialEq::ne", "std::cmp::PartialEq::eq"):
+            continue
+        ids = set()
+        for i in (0, 1):
+            for x in term_calls(sl.call_arg(c, i)):
+                ids.add(x[1])
+        if any(name_matches(n, "re:TableSegment::get_value$") for n in ids) and GB + "serialize_extras" in ids:
+            tr, fa = bool_edges(F, b, c)
+            cmp_true_differs |= set(tr if c.decl.endswith("::ne") else fa)
+    ok1 = bool(cmp_true_differs)
+    # from the "differs" edge the id must not be produced without writing the object again
+    p = None
+    if ok1:
+        p = b.path_avoiding(list(cmp_true_differs), [m.bb for m in mk], {w.bb for w in wobj})
+    ctx.ob("C17.d/id-not-shared-with-different-extras", imp, ok1 and p is None,
+           "an id whose extras-table entry differs is never handed out: the loop rewrites the object first" if ok1 and p is None
+           else ("no comparison of the existing extras entry with the new extras" if not ok1 else
+                 f"the id is returned although the table holds different extras for it: {b.show_path(p)[-3:]}") +
+           " - two commits differing only in table-stored fields would share an id and one entry is lost", where=getv[0].where())
+    # the key looked up is the id of the object just written
+    kt = sl.call_arg(getv[0], 1)
+    okk = any(name_matches(x[1], "re:::write_object$") for x in term_calls(kt))
+    ctx.ob("C17.d/lookup-keyed-by-written-id", imp, okk, "get_value(git_id.as_bytes()) of the object just written" if okk else
+           f"collision lookup is not keyed by the written object's id: {show(kt)[:100]}")
+    # id derives from the same write_object
+    it = sl.call_arg(mk[0], 0)
+    oki = any(name_matches(x[1], "re:::write_object$") for x in term_calls(it))
+    ctx.ob("C17.d/id-is-written-object-id", imp, oki, "CommitId::from_bytes(git_id.as_bytes())" if oki else
+           f"returned id does not derive from write_object: {show(it)[:100]}")
+    # d2: entry added and saved before every Ok
+    oks, _, _ = ok_exit_nodes(F, b)
+    a = adds[0]
+    k, v = sl.call_arg(a, 1), sl.call_arg(a, 2)
+    okkv = any(x[1] == "jj_lib::backend::CommitId::from_bytes" for x in term_calls(k)) and \
+        any(x[1] == GB + "serialize_extras" for x in term_calls(v))
+    ctx.ob("C17.d/entry-is-id-to-extras", imp, okkv, "add_entry(id.to_bytes(), serialize_extras(contents))" if okkv else
+           f"table entry is not (returned id -> serialized extras): {show(k)[:60]} -> {show(v)[:60]}", where=a.where())
+    doms = set()
+    for c in save:
+        doms |= find_ok_nodes(F, b, c)
+    # saving may be skipped only where the table is known to hold an equal entry for this id already
+    equal_edges = set()
+    for c in b.calls:
+        if c.cleanup or c.decl not in ("std::cmp::PartialEq::ne", "std::cmp::PartialEq::eq"):
+            continue
+        ids = {x[1] for i in (0, 1) for x in term_calls(sl.call_arg(c, i))}
+        if any(name_matches(n, "re:TableSegment::get_value$") for n in ids) and GB + "serialize_extras" in ids and \
+                "jj_lib::backend::CommitId::from_bytes" in ids:
+            tr, fa = bool_edges(F, b, c)
+            equal_edges |= set(fa if c.decl.endswith("::ne") else tr)
+    pth = b.path_avoiding([0], list(oks), doms | equal_edges) if oks else [0]
+    pth2 = b.path_avoiding([0], list(oks), {a.bb} | equal_edges) if oks else [0]
+    ctx.ob("C17.d/extras-saved-before-ok", imp, bool(doms) and pth is None and pth2 is None,
+           "every Ok return passes add_entry and a ?-checked save_extra_metadata_table" if doms and pth is None and pth2 is None
+           else "write_commit can return Ok without the extras entry being saved: read_commit will not find change id/"
+           "predecessors")
+    # d3: same locked table
+    tt = sl.call_arg(getv[0], 0)
+    lt = sl.call_arg(save[0], 2)
+    okl = any(x[1] == GB + "GitBackend::read_extra_metadata_table_locked" for x in term_calls(tt)) and \
+        any(x[1] == GB + "GitBackend::read_extra_metadata_table_locked" for x in term_calls(lt))
+    ctx.ob("C17.d/collision-check-under-table-lock", imp, okl,
+           "table consulted and lock passed to save both come from read_extra_metadata_table_locked()" if okl else
+           "the collision check reads the table outside the lock that protects the save (lost-entry race)")
+    # serialize_extras covers the table-stored fields: its body reads change_id, predecessors, root_tree (conflicts)
+    eb = F.body(GB + "serialize_extras")
+    if ctx.anchor("C17.d", "serialize_extras body", [eb] if eb is not None else [], 1):
+        ctx.fn_seen(eb.id)
+        from jjv.lib import fields_touched
+        reads = {f for (_, f) in fields_touched(F, GB + "serialize_extras", (B + "Commit",), READ_KINDS, depth=1)}
+        need = {"change_id", "predecessors"}
+        ctx.ob("C17.d/extras-cover-table-fields", GB + "serialize_extras", need <= reads,
+               f"reads {sorted(reads)}" if need <= reads else f"serialize_extras no longer reads {sorted(need - reads)}")
